@@ -511,7 +511,7 @@ fn explore_c<const C: usize>(ctx: &Ctx, rep: &mut Report, cfg: RibCfg, levels: V
     }
     rep.count("calibrations", 1);
     let r = explore(m, &ExploreCfg { max_depth, state_cap: 12_000_000, threads: ctx.threads, label: format!("{} (capacity {}, press after {} samples)", label, C, l) }, rep, props);
-    if max_depth.is_none() && !r.fixpoint && !r.cap_hit {
+    if max_depth.is_none() && !r.fixpoint && !r.cap_hit && !r.stopped {
         rep.machinery(format!("{}: no fixpoint", label));
     }
 }
